@@ -258,4 +258,169 @@ theorem run_inv {cfg : Cfg} (hs : Sim P core cfg) : ∀ (ms : List (Move P)) (w 
       rw [hst] at he ha
       exact ih w1 w' (step_inv hs h m ha.1.1 ha.1.2 hst) ha.2 he
 
+/-! ## the handshake clause: `Ready` at most once, and only after the peer's accept datagram -/
+
+theorem readyCount_pos_of_mem {evs : List Event} (h : Event.ready ∈ evs) : readyCount evs ≠ 0 := by
+  induction evs with
+  | nil => simp at h
+  | cons x xs ih =>
+    cases x with
+    | ready => simp [readyCount]
+    | _ =>
+      simp only [List.mem_cons] at h
+      rcases h with h | h
+      · cases h
+      · simpa [readyCount] using ih h
+
+theorem readyCount_receiveLazy (ack : Nat) (cs : List Chunk) : readyCount (receiveLazy ack cs) = 0 := by
+  induction cs generalizing ack with
+  | nil => rfl
+  | cons c cs ih =>
+    unfold receiveLazy
+    cases hv : c.vital with
+    | none => simp [readyCount, ih]
+    | some v =>
+      obtain ⟨s, r⟩ := v
+      simp only
+      split
+      · simp [readyCount, ih]
+      · exact ih _
+
+theorem readyCount_receive {cfg : Cfg} {now : Nat} {o : Online} {snd : Timeout} {rr : Bool} {cs : List Chunk}
+    {o' : Online} {s' : Timeout} {fl : List Flushed} {evs : List Event}
+    (h : o.receive cfg now snd rr cs = .ok (o', s', fl, evs)) : readyCount evs = 0 := by
+  unfold Online.receive at h
+  cases rr with
+  | false =>
+    simp only [Bool.false_eq_true, if_false] at h
+    split at h
+    · cases h
+    · injection h with h; injection h with _ e2; injection e2 with _ e3; injection e3 with _ e4
+      rw [← e4]; exact readyCount_receiveLazy _ _
+  | true =>
+    simp only [if_true] at h
+    cases hr : o.resend cfg now snd with
+    | error e => rw [hr] at h; cases h
+    | ok r =>
+      obtain ⟨o2, s2, f2⟩ := r
+      rw [hr] at h
+      simp only at h
+      split at h
+      · cases h
+      · injection h with h; injection h with _ e2; injection e2 with _ e3; injection e3 with _ e4
+        rw [← e4]; exact readyCount_receiveLazy _ _
+
+/-- what the handshake clause needs to know about a protocol variant: `late` = online or
+disconnected (the states from which the connection never reports `Ready` again) -/
+structure Hs (P : Proto) (late : P.Conn → Bool) : Prop where
+  call : ∀ (now : Nat) (draws : List Nat) (c : P.Conn) (cl : Call) (r : Ret P.Conn P.Packet),
+    P.call now draws c cl = .ok r → readyCount r.events = 0 ∧ (late c = true → late r.conn = true)
+  recv : ∀ (now : Nat) (draws : List Nat) (c : P.Conn) (p : P.Packet) (alt : P.Alt) (r : Ret P.Conn P.Packet),
+    P.recv now draws c p alt = .ok r →
+      (late c = true → late r.conn = true ∧ readyCount r.events = 0) ∧
+      (readyCount r.events = 0 ∨ (readyCount r.events = 1 ∧ late r.conn = true ∧ P.isAccept p = true))
+
+def Hside (P : Proto) (late : P.Conn → Bool) (e peer : End P) : Prop :=
+  (readyCount e.events = 0 ∨ (readyCount e.events = 1 ∧ late e.conn = true)) ∧
+  (readyCount e.events ≠ 0 → ∃ dg ∈ peer.out, P.isAccept dg.pkt = true)
+
+def HInv (P : Proto) (late : P.Conn → Bool) (w : World P) : Prop :=
+  Hside P late w.a w.b ∧ Hside P late w.b w.a
+
+variable {late : P.Conn → Bool}
+
+theorem Hside.mono_peer {e peer peer' : End P} (h : Hside P late e peer) (hout : ∀ dg ∈ peer.out, dg ∈ peer'.out) :
+    Hside P late e peer' :=
+  ⟨h.1, fun hne => by obtain ⟨dg, hdg, ha⟩ := h.2 hne; exact ⟨dg, hout dg hdg, ha⟩⟩
+
+theorem book_out_mono (e : End P) (r : Ret P.Conn P.Packet) (sub : List (Bytes × Bool)) :
+    ∀ dg ∈ e.out, dg ∈ (e.book r sub).out := by
+  intro dg hdg
+  simp only [End.book]
+  exact List.mem_append_left _ hdg
+
+theorem Hside.call (hs : Hs P late) {e peer : End P} (h : Hside P late e peer) {now : Nat} {draws : List Nat}
+    {cl : Call} {r : Ret P.Conn P.Packet} (hr : P.call now draws e.conn cl = .ok r) (sub : List (Bytes × Bool)) :
+    Hside P late (e.book r sub) peer := by
+  obtain ⟨h0, hl⟩ := hs.call _ _ _ _ _ hr
+  have hev : readyCount (e.book r sub).events = readyCount e.events := by
+    simp [End.book, readyCount_append, h0]
+  refine ⟨?_, fun hne => h.2 (by rw [← hev]; exact hne)⟩
+  rw [hev]
+  rcases h.1 with h1 | ⟨h1, h2⟩
+  · exact Or.inl h1
+  · exact Or.inr ⟨h1, hl h2⟩
+
+theorem Hside.recv (hs : Hs P late) {e peer : End P} (h : Hside P late e peer) {now : Nat} {draws : List Nat}
+    {dg : Sent P.Packet} (hdg : dg ∈ peer.out) {alt : P.Alt} {r : Ret P.Conn P.Packet}
+    (hr : P.recv now draws e.conn dg.pkt alt = .ok r) : Hside P late (e.book r []) peer := by
+  obtain ⟨hl, hc⟩ := hs.recv _ _ _ _ _ _ hr
+  have hev : readyCount (e.book r []).events = readyCount e.events + readyCount r.events := by
+    simp [End.book, readyCount_append]
+  rcases h.1 with h1 | ⟨h1, h2⟩
+  · rcases hc with hc | ⟨hc1, hc2, hc3⟩
+    · exact ⟨Or.inl (by rw [hev, h1, hc]), fun hne => absurd (by rw [hev, h1, hc]) hne⟩
+    · exact ⟨Or.inr ⟨by rw [hev, h1, hc1], hc2⟩, fun _ => ⟨dg, hdg, hc3⟩⟩
+  · obtain ⟨l1, l2⟩ := hl h2
+    exact ⟨Or.inr ⟨by rw [hev, h1, l2], l1⟩, fun _ => h.2 (by rw [h1]; simp)⟩
+
+theorem step_hs (hs : Hs P late) {w w' : World P} (h : HInv P late w) (m : Move P) (he : step w m = some w') :
+    HInv P late w' := by
+  cases m with
+  | advance dt =>
+    simp only [step] at he
+    injection he with he; subst he; exact h
+  | call s draws c =>
+    simp only [step] at he
+    cases hr : P.call w.now draws (w.get s).conn c with
+    | error e => rw [hr] at he; cases he
+    | ok r =>
+      rw [hr] at he
+      injection he with he
+      subst he
+      cases s with
+      | a => exact ⟨h.1.call hs hr _, h.2.mono_peer (book_out_mono _ _ _)⟩
+      | b => exact ⟨h.1.mono_peer (book_out_mono _ _ _), h.2.call hs hr _⟩
+  | deliver to i draws alt =>
+    simp only [step] at he
+    cases hdg : (w.get to.other).out[i]? with
+    | none => rw [hdg] at he; cases he
+    | some dg =>
+      rw [hdg] at he
+      simp only at he
+      cases hr : P.recv w.now draws (w.get to).conn dg.pkt alt with
+      | error e => rw [hr] at he; cases he
+      | ok r =>
+        rw [hr] at he
+        injection he with he
+        subst he
+        have hm := List.mem_of_getElem? hdg
+        cases to with
+        | a => exact ⟨h.1.recv hs hm hr, h.2.mono_peer (book_out_mono _ _ _)⟩
+        | b => exact ⟨h.1.mono_peer (book_out_mono _ _ _), h.2.recv hs hm hr⟩
+
+theorem init_hs : HInv P late (World.init P) :=
+  ⟨⟨Or.inl rfl, fun h => absurd rfl h⟩, ⟨Or.inl rfl, fun h => absurd rfl h⟩⟩
+
+theorem run_hs (hs : Hs P late) : ∀ (ms : List (Move P)) (w w' : World P),
+    HInv P late w → run w ms = some w' → HInv P late w' := by
+  intro ms
+  induction ms with
+  | nil => intro w w' h he; simp [run] at he; subst he; exact h
+  | cons m ms ih =>
+    intro w w' h he
+    simp only [run] at he
+    cases hst : step w m with
+    | none => rw [hst] at he; cases he
+    | some w1 => rw [hst] at he; exact ih w1 w' (step_hs hs h m hst) he
+
+/-- **C01 on a world**, from the two invariants -/
+theorem safe_of {cfg : Cfg} {w : World P} (h1 : WInv P core cfg w) (h2 : HInv P late w) : Safe w := by
+  obtain ⟨a, b, c, d⟩ := AInv.safe h1
+  refine ⟨a, b, c, d, ?_, ?_, ?_, ?_⟩
+  · rcases h2.1.1 with h | ⟨h, _⟩ <;> omega
+  · rcases h2.2.1 with h | ⟨h, _⟩ <;> omega
+  · exact fun hr => h2.1.2 (readyCount_pos_of_mem hr)
+  · exact fun hr => h2.2.2 (readyCount_pos_of_mem hr)
+
 end Tw.NetSim
